@@ -453,6 +453,15 @@ func runArrayProgram(e *arrEnv, nOps, sizeProf, posProf, opProf int) {
 				e.obsErr(err)
 				if hx.ErrKind(err) != "IndexOutOfBounds:User" {
 					e.violation("C18", fmt.Sprintf("out-of-range request reported %s", hx.ErrKind(err)))
+				} else {
+					// "an error naming that cause": the index that was asked for and the bounds it violates
+					asked := i - 1
+					if k == 2 {
+						asked = i
+					}
+					if d := hx.ErrNames(err, "IndexOutOfBounds", asked, 0, n); d != "" {
+						e.violation("C18", fmt.Sprintf("out-of-range request (kind %d, index %d, count %d): %s", k, asked, n, d))
+					}
 				}
 				// ... and immediately after it: nothing may have moved, not even inside a slab that is
 				// already in the write set; the model compares its own tree with the same dump
@@ -512,6 +521,8 @@ func runArrayProgram(e *arrEnv, nOps, sizeProf, posProf, opProf int) {
 			}
 			// C09: one live array, everything handed back has been disposed of: exactly its slabs remain
 			e.health()
+			// C18: elements whose large-value slab is absent are reported, not dereferenced (dangling.go)
+			e.danglingProbe()
 			e.st.Ops += 0
 		}
 	}
